@@ -86,7 +86,8 @@ class SliceAccessor(Accessor):
             if start is None:
                 start = int(self.keys_object[0])
             if stop is None:
-                stop = int(self.keys_object[-1] + 1)
+                # One past the last line number, in the direction of travel (axes may be descending)
+                stop = int(self.keys_object[-1]) + (1 if step > 0 else -1)
             return [self.values_function(index) for index in range(start, stop, step)]
         else:
             return self.values_function(subscript)
